@@ -1,11 +1,13 @@
 import Gofasta.Lemmas.Reorder
 import Gofasta.Model.Updown
+import Gofasta.Lemmas.CsvRoundTrip
 /-
 C09 — updown topranking gives identical results for CSV and FASTA inputs.
-The CSV text layer (encoding/csv, strconv) is not modelled: what both routes hand to the ranking
-core is a record (id, SNP list, ambiguity tracts, ambiguity count); the real four-way comparison on
-the same data is run by the correspondence stream. Proved here: the ranking depends on nothing else,
-and results are placed by query index.
+What both routes hand to the ranking core is a record (id, SNP list, ambiguity tracts, ambiguity count). Proved
+here: the CSV text layer is a faithful channel for it (`csv_roundtrip`: rendering by `updown list`, Go's encoding/csv
+reader with default settings as a byte machine, getAmbArr, strconv.Atoi — `Model/Csv`, `Lemmas/CsvRoundTrip`), the
+ranking depends on nothing else, and results are placed by query index. The real four-way comparison on the same data
+is run by the correspondence stream; stream C09csv ties the CSV model to the real writer and readers.
 -/
 namespace Gofasta.Props.C09
 open Gofasta Model
@@ -32,5 +34,26 @@ theorem rows_by_query_index (rows : Nat → String) (n : Nat) (arrival : List Na
 1..m-1 would never be written; with distinct indices 0..m-1 every slot is written exactly once -/
 theorem distinct_indices_needed : Reorder.run [(0, "a"), (0, "b")] = ["a"] ∧ Reorder.run [(0, "a"), (1, "b")] = ["a", "b"] := by
   decide
+
+open Gofasta.Model.Csv Gofasta.Lemmas.CsvRT in
+/-- **C09.csv_roundtrip** — for every list of rows `updown list` can write (positions and counts within int, SNP
+symbols that are not delimiters, IDs of any bytes but line breaks — commas and double quotes included), reading the
+CSV back gives exactly the IDs, SNP strings, SNP positions, ambiguity ranges and ambiguity counts that were written,
+in order: the CSV route hands the ranking core the same records as the FASTA route -/
+theorem csv_roundtrip (rows : List (Bytes × UDLine)) (h : ∀ r ∈ rows, RowOk r.1 r.2) :
+    readUDL (fileB rows) = .ok (rows.map fun r => expected r.1 r.2) :=
+  Gofasta.Lemmas.CsvRT.csv_roundtrip rows h
+
+open Gofasta.Model.Csv Gofasta.Lemmas.CsvRT in
+/-- non-vacuity: an ID with a comma and a double quote, two SNPs, a one-column and a longer ambiguity range -/
+example : RowOk ("t\"1,z".toList.map Char.toNat)
+    { id := "x", snps := [(10, 67, 65), (245, 71, 84)], ambs := [(3, 3), (7, 12)], snpCount := 2, ambCount := 7 } := by
+  refine ⟨by decide, ?_, ?_, by decide⟩
+  · intro s hs
+    simp only [List.mem_cons, List.not_mem_nil, or_false] at hs
+    rcases hs with rfl | rfl <;> exact ⟨by decide, ⟨by decide, by decide, by decide, by decide, by decide⟩, ⟨by decide, by decide, by decide, by decide, by decide⟩⟩
+  · intro a ha
+    simp only [List.mem_cons, List.not_mem_nil, or_false] at ha
+    rcases ha with rfl | rfl <;> exact ⟨by decide, by decide⟩
 
 end Gofasta.Props.C09
